@@ -76,3 +76,14 @@ package rawkv
 //@       arg_req.Req.(*kvrpcpb.RawChecksumRequest).Ranges[0].StartKey == startKey && arg_req.Req.(*kvrpcpb.RawChecksumRequest).Ranges[0].EndKey == endKey
 //@   loop 1 step walk: prev(startKey) < startKey && startKey == loc.EndKey
 //@   ensures done: err == nil ==> final(startKey) == "" || (endKey != "" && final(startKey) >= endKey)
+
+// CompareAndSwap sends, to the region holding the key, the key, the new value and the expected previous state: "must not
+// exist" exactly for a nil previous value, else that previous value (an empty, non-nil one included); the answer's
+// success flag is passed on as it is.
+//@ func (c *Client) CompareAndSwap
+//@   prop C11
+//@   may-panic
+//@   opaque-callee getRawKVOptions getColumnFamily convertNilToEmptySlice
+//@   at call(sendReq) assert cas: arg_key == key && arg_reverse == false && reqArgs.Key == key && reqArgs.Value == newValue && reqArgs.PreviousNotExist == (previousValue == nil) &&
+//@       (previousValue != nil ==> reqArgs.PreviousValue == previousValue) && arg_req != nil && arg_req.Type == tikvrpc.CmdRawCompareAndSwap
+//@   at return assert passed: result2 == nil ==> result1 == cmdResp.Succeed
